@@ -79,7 +79,9 @@ SCAN16_SUBGRAPH_SOLUTION = {
 }
 SEQUENCEMAP17_SUBGRAPH_SOLUTION = {
     "body": "[typing_cast(SpoxSequence, input_sequence.unwrap_type()).elem_type] + "
-    "[typing_cast(SpoxSequence, var.unwrap_type()).elem_type for var in additional_inputs]"
+    "[typing_cast(SpoxSequence, var.unwrap_type()).elem_type "
+    "if isinstance(var.unwrap_type(), SpoxSequence) else var.unwrap_type() "
+    "for var in additional_inputs]"
 }
 
 V16_OUT_VARIADIC_SOLUTIONS = {
